@@ -448,7 +448,7 @@ func writeEvidence(P *Prog, prop string, pd *PropDef, res *checkResult, tier str
 	assumptions := []string{
 		"blocking operations are treated as returning (partial correctness); no liveness conclusion",
 		"data races on fields not declared guarded/immutable are not excluded",
-		"append is modelled as always reallocating; memory exhaustion is not modelled (make sizes are bounded by 2^48 bytes)",
+		"append is exact (in place if capacity suffices) for slices not built by the function itself; for locally built slices it is modelled as reallocating (differs only under a local alias of the same array); memory exhaustion is not modelled (make sizes are bounded by 2^48 bytes)",
 		"package-level variables are immutable after init (census-checked for /repo)",
 		"user callbacks do not touch library-private state except through exported, locking methods",
 		"integers are mathematical Int with explicit two's-complement wrap on every arithmetic result",
